@@ -486,6 +486,7 @@ func (e *Enc) instr(fr *Frame, st *State, in ssa.Instruction) {
 		}
 		loc := e.alloc(st, in.Comment)
 		e.initZero(st, loc, t)
+		e.initGhost(st, loc, t, 0)
 		fr.vals[in] = loc
 	case *ssa.Store:
 		t := in.Val.Type()
